@@ -191,7 +191,7 @@ def cases(draw, kind='exhaustive'):
                        st.floats(0.0, 1.0)))
     name, kw = draw(st.sampled_from(domain.deformations(cls)))
     return {'kind': kind, 'cls': cls, 'size': list(size),
-            'direction': [float(x) for x in r], 'error_rate': float(p),
+            'direction': domain.as_given(draw, r), 'error_rate': domain.as_given(draw, [p])[0],
             'deformation': name, 'kwargs': kw, 'n_errors': 24,
             'metropolis': draw(st.booleans()),
             'rseed': draw(st.integers(0, 2**30))}
